@@ -27,11 +27,12 @@ type c20Req struct {
 }
 
 type c20Detail struct {
-	From pState   `json:"from"`
-	Reqs []c20Req `json:"requests"`
-	To   pState   `json:"to"`
-	Dep  int64    `json:"deposit_value,omitempty"`
-	Net  string   `json:"bitcoin_network,omitempty"`
+	From    pState   `json:"from"`
+	Reqs    []c20Req `json:"requests"`
+	To      pState   `json:"to"`
+	Dep     int64    `json:"deposit_value,omitempty"`
+	DepKind string   `json:"deposit_kind,omitempty"`
+	Net     string   `json:"bitcoin_network,omitempty"`
 }
 
 var c20V = []uint64{0, 1, 999, 1000, 1001, 9999, 10000, 10001, 1 << 32, 1<<63 - 1, 1 << 63, 1<<64 - 1}
@@ -114,7 +115,7 @@ func safe(s pState) string {
 }
 
 func runC20(r *mc.Run) {
-	r.Rule = "BFS to fixpoint over bridge parameter states (rate, cap, confirmations, minimum) from three safe genesis corners under DepositTax/Confirmation/MinDeposit requests over a 12-value 64-bit alphabet (single requests, every pair of values of two different kinds in one request list, and further multi-request lists), each applied by the real ProcessBridgeRequest; the whole menu again from the three corners on every configurable bitcoin network; in every reachable state deposits of 8 values go through the real MsgNewDeposits handler; request lists (each value alone, next to in-range requests of the other kinds, after an in-range request of its own kind) inside an execution block through the real PrepareProposal/ProcessProposal/FinalizeBlock together with a withdrawal request: block applied, same parameters as the direct keeper call, last in-range request wins, withdrawal on record; oracle = bounds invariant, targeted parameter unchanged by out-of-range requests, 0 <= tax < value, amount > 0, value >= minimum > dust"
+	r.Rule = "BFS to fixpoint over bridge parameter states (rate, cap, confirmations, minimum) from three safe genesis corners under DepositTax/Confirmation/MinDeposit requests over a 12-value 64-bit alphabet (single requests, every pair of values of two different kinds in one request list, and further multi-request lists), each applied by the real ProcessBridgeRequest; the whole menu again from the three corners on every configurable bitcoin network; in every reachable state deposits of 8 values in each of the three deposit forms (version 0 with a secp256k1 key, version 0 with a Schnorr key, version 1) go through the real MsgNewDeposits handler; request lists (each value alone, next to in-range requests of the other kinds, after an in-range request of its own kind) inside an execution block through the real PrepareProposal/ProcessProposal/FinalizeBlock together with a withdrawal request: block applied, same parameters as the direct keeper call, last in-range request wins, withdrawal on record; oracle = bounds invariant, targeted parameter unchanged by out-of-range requests, 0 <= tax < value, amount > 0, value >= minimum > dust"
 	r.Assumptions = []string{"parameter states are materialised by writing Params on a branch (the handler reads nothing else)", "dust limit fixed at 1000 satoshi in the oracle"}
 	vals := c20V
 	if r.Thorough() {
@@ -158,18 +159,18 @@ func runC20(r *mc.Run) {
 			defer put(w)
 			// deposits in this parameter state
 			for _, v := range depValues {
-				for _, kind := range []string{"v0-secp"} {
+				for _, kind := range []string{"v0-secp", "v0-schnorr", "v1-secp"} { // every deposit form: the bounds must hold on each path through deposit checking
 					c := &depCase{Pos: 1, NTx: 2, Height: c03Mature, Kind: kind, Value: v, Rate: s.Rate, Cap: s.Max, MinDep: s.Min}
 					acc, msg, class := w.eval(c)
 					r.Transitions.Add(1)
 					r.Validated.Add(1)
 					if msg != "" {
-						r.Violate(mc.Violation{Class: "deposit:" + class, Msg: fmt.Sprintf("params %+v value %d: %s", s, v, msg), Detail: c20Detail{From: s, To: s, Dep: v}}, nil)
+						r.Violate(mc.Violation{Class: "deposit:" + class, Msg: fmt.Sprintf("params %+v value %d: %s", s, v, msg), Detail: c20Detail{From: s, To: s, Dep: v, DepKind: kind}}, nil)
 					}
 					if acc {
 						r.Outcome("deposit-accepted")
 						if uint64(v) <= dustLimit || uint64(v) < s.Min {
-							r.Violate(mc.Violation{Class: "dust-or-below-minimum-deposit-accepted", Msg: fmt.Sprintf("params %+v accept value %d", s, v), Detail: c20Detail{From: s, To: s, Dep: v}}, nil)
+							r.Violate(mc.Violation{Class: "dust-or-below-minimum-deposit-accepted", Msg: fmt.Sprintf("params %+v accept %s deposit of value %d", s, kind, v), Detail: c20Detail{From: s, To: s, Dep: v, DepKind: kind}}, nil)
 						}
 					} else {
 						r.Outcome("deposit-rejected")
@@ -280,7 +281,11 @@ func replayC20(detail json.RawMessage) (bool, string) {
 	}
 	defer w.close()
 	if d.Dep != 0 {
-		c := &depCase{Pos: 1, NTx: 2, Height: c03Mature, Kind: "v0-secp", Value: d.Dep, Rate: d.From.Rate, Cap: d.From.Max, MinDep: d.From.Min}
+		kind := d.DepKind
+		if kind == "" {
+			kind = "v0-secp"
+		}
+		c := &depCase{Pos: 1, NTx: 2, Height: c03Mature, Kind: kind, Value: d.Dep, Rate: d.From.Rate, Cap: d.From.Max, MinDep: d.From.Min}
 		acc, msg, _ := w.eval(c)
 		bad := msg != "" || (acc && (uint64(d.Dep) <= dustLimit || uint64(d.Dep) < d.From.Min))
 		return bad, fmt.Sprintf("accepted=%v %s", acc, msg)
